@@ -89,7 +89,8 @@ func GenScn(c *vs.Case, o GenOpts) *Scn {
 			ch.Method = o.ForceMethod
 		default:
 			ms := []string{"", "OnDelete", "Recreate", "InPlace"}
-			if o.AllowRolling && cfg.Kind == "composite" {
+			if o.AllowRolling {
+				// decorators accept the rolling method names too (and treat them like their plain counterparts)
 				ms = AllMethods
 			}
 			if o.AllowUnknown {
